@@ -75,7 +75,7 @@ class Interp:
     # ======================================================================
     # quantified hypotheses: instantiated on the index terms that are actually read
     # ======================================================================
-    def saw_index(self, k):
+    def saw_index(self, k, _from_read=False):
         ctx = self.ctx
         if ctx.ghost.get("instantiating"):
             return
@@ -89,13 +89,117 @@ class Interp:
             return
         terms[key] = k
         for fa in ctx.ghost.get("foralls", []):
-            self._instantiate(fa, k)
+            if not getattr(fa, "patterns", None):
+                self._instantiate_once(fa, k)       # no usable trigger: every index term
+
+    def saw_read(self, name, idx):
+        """A read f(idx) of an uninterpreted tensor: trigger-based instantiation (E-matching by
+        hand).  A hypothesis `forall k. body(k)` whose body reads f at k + c is instantiated at
+        idx - c; hypotheses without usable triggers are instantiated at every index term."""
+        ctx = self.ctx
+        # reads made while instantiating a hypothesis trigger further instantiations one level
+        # deep only (an instance of a lemma may need the facts about the terms it mentions;
+        # unbounded chaining x[k+1] -> x[k+2] -> ... is cut off)
+        if ctx.ghost.get("instantiating", 0) >= 2 or ctx.ghost.get("pattern_probe"):
+            return
+        idx = tuple(z3.simplify(i) if is_z3(i) else i for i in idx)
+        reads = ctx.ghost.setdefault("reads", {}).setdefault(name, {})
+        key = str(idx)
+        if key in reads:
+            return
+        reads[key] = idx
+        for fa in ctx.ghost.get("foralls", []):
+            pats = getattr(fa, "patterns", None)
+            if pats:
+                for (pn, pos, off) in pats:
+                    if pn == name and pos < len(idx):
+                        self._instantiate_once(fa, ops.sub(idx[pos], off))
+        for i in idx:
+            self.saw_index(i, _from_read=True)
+
+    def _instantiate_once(self, fa, k):
+        if is_z3(k):
+            k = z3.simplify(k)
+            if z3.is_int_value(k):
+                k = k.as_long()
+        done = fa.__dict__.setdefault("done", set())
+        key = str(k)
+        if key in done:
+            return
+        done.add(key)
+        self._instantiate(fa, k)
+
+    def _patterns(self, fa: ForallV):
+        """triggers of a hypothesis: (tensor name, argument position, offset) for every read of an
+        uninterpreted tensor at `k + offset` in its body"""
+        ctx = self.ctx
+        k0 = z3.Int("k!pattern")
+        ctx.ghost["instantiating"] = ctx.ghost.get("instantiating", 0) + 1
+        ctx.ghost["pattern_probe"] = ctx.ghost.get("pattern_probe", 0) + 1
+        try:
+            body = fa.fn(k0)
+        except Exception:
+            return None
+        finally:
+            ctx.ghost["instantiating"] -= 1
+            ctx.ghost["pattern_probe"] -= 1
+        if isinstance(body, ForallV) or not is_z3(body):
+            return None
+        pats = set()
+        seen = set()
+
+        def walk(e):
+            if e.get_id() in seen:
+                return
+            seen.add(e.get_id())
+            if z3.is_app(e):
+                if e.num_args() > 0 and e.decl().kind() == z3.Z3_OP_UNINTERPRETED:
+                    for pos, a in enumerate(e.children()):
+                        if z3.is_int(a):
+                            d = z3.simplify(a - k0)
+                            if z3.is_int_value(d):
+                                pats.add((e.decl().name(), pos, d.as_long()))
+                for c in e.children():
+                    walk(c)
+        walk(body)
+        return pats or None
+
+    def quantified(self, fa: ForallV, depth=0):
+        """the hypothesis as a genuine z3 quantifier (used only to double-check a `sat` answer that
+        was obtained from the finitely many instances)"""
+        ctx = self.ctx
+        k = z3.Int(f"k!bound{depth}!{ctx.fresh_n}")
+        ctx.fresh_n += 1
+        ctx.ghost["instantiating"] = ctx.ghost.get("instantiating", 0) + 1
+        ctx.ghost["pattern_probe"] = ctx.ghost.get("pattern_probe", 0) + 1
+        try:
+            body = fa.fn(k)
+        finally:
+            ctx.ghost["instantiating"] -= 1
+            ctx.ghost["pattern_probe"] -= 1
+        if isinstance(body, ForallV):
+            body = self.quantified(body, depth + 1)
+        rng = z3.And(k >= to_z3(fa.lo), k < to_z3(fa.hi))
+        if isinstance(body, bool):
+            body = z3.BoolVal(body)
+        return z3.ForAll([k], z3.Implies(rng, body))
 
     def add_forall(self, fa: ForallV):
         ctx = self.ctx
         ctx.ghost.setdefault("foralls", []).append(fa)
+        try:
+            ctx.quantified.append(self.quantified(fa))
+        except Exception:
+            ctx.quantified.append(None)
+        fa.patterns = self._patterns(fa)
+        if fa.patterns:
+            for (pn, pos, off) in fa.patterns:
+                for idx in list(ctx.ghost.get("reads", {}).get(pn, {}).values()):
+                    if pos < len(idx):
+                        self._instantiate_once(fa, ops.sub(idx[pos], off))
+            return
         for k in list(ctx.ghost.get("index_terms", {}).values()):
-            self._instantiate(fa, k)
+            self._instantiate_once(fa, k)
 
     def _instantiate(self, fa: ForallV, k):
         ctx = self.ctx
